@@ -68,10 +68,13 @@ def run(unit, only=None, timeout=1500):
         os.makedirs(cache_root, exist_ok=True)
         key = h.hexdigest()[:16]
         tdir = os.path.join(cache_root, key)
-        # keep at most 3 cached trees
+        # keep at most 8 cached trees, and never remove one that was used in the last three hours: checks of different
+        # properties may run at the same time and a tree that is being built must not disappear under its builder
+        import time as _t
         olds = sorted((d for d in os.listdir(cache_root) if d != key), key=lambda d: os.path.getmtime(os.path.join(cache_root, d)))
-        for d in olds[:-2]:
-            shutil.rmtree(os.path.join(cache_root, d), ignore_errors=True)
+        for d in olds[:-7]:
+            if _t.time() - os.path.getmtime(os.path.join(cache_root, d)) > 3 * 3600:
+                shutil.rmtree(os.path.join(cache_root, d), ignore_errors=True)
         os.makedirs(tdir, exist_ok=True)
         os.utime(tdir, None)
         env["CARGO_TARGET_DIR"] = tdir
